@@ -126,6 +126,19 @@ def _hyp_search(check, tier, seed, n_examples, stats):
     test()
 
 
+def _machine_search(check, tier, seed, n_examples, stats):
+    from hypothesis import HealthCheck
+    from hypothesis import seed as hseed
+    from hypothesis import settings
+    from hypothesis.stateful import run_state_machine_as_test
+
+    machine = check.machine(tier, stats)
+    st = settings(max_examples=n_examples, stateful_step_count=getattr(check, 'max_steps', 10), database=None,
+                  deadline=None, derandomize=False, report_multiple_bugs=False,
+                  suppress_health_check=list(HealthCheck), print_blob=False)
+    run_state_machine_as_test(hseed(seed)(machine), settings=st)
+
+
 def known_finding_lines(check):
     """replay the witnesses of the known findings that touch this property"""
     from verifkit import findings as F
@@ -177,7 +190,10 @@ def run_shard(check, tier, seed, n_examples, out_path=None):
     failing = None
     try:
         stats.extra['regress_replays'] = regression_replays(check)
-        _hyp_search(check, tier, seed, n_examples, stats)
+        if hasattr(check, 'machine'):
+            _machine_search(check, tier, seed, n_examples, stats)
+        else:
+            _hyp_search(check, tier, seed, n_examples, stats)
         check.extra(tier, seed, stats)
     except ViolationFound as v:
         failing = (v.case, v.violations)
